@@ -28,6 +28,9 @@ def baseline():
             # an initiator whose NOC has expired before the device's last known good time (a NotBefore in the future is not
             # judged without a synchronised clock, see CertChain.tla)
             [dict(CFG, validity2="expired"), {"op": "Case", "i": 2}, {"op": "Settle"}, {"op": "Case", "i": 1}, {"op": "Settle"}, {"op": "Case", "i": 2}, {"op": "Settle"}],
+            # an ordinary member presents a NOC it signed itself (for the administrator's node id) with its genuine NOC in the
+            # ICAC position: not a chain of CA certificates
+            [dict(CFG, validity2="forged"), {"op": "Case", "i": 2}, {"op": "Settle"}, {"op": "Case", "i": 1}, {"op": "Settle"}, {"op": "Case", "i": 2}, {"op": "Settle"}],
             [CFG, {"op": "Case", "i": 1, "peer": 0x2999}, {"op": "Settle"}, {"op": "Case", "i": 3, "peer": 0x2000}, {"op": "Settle"}, {"op": "Case", "i": 1, "peer": 0x2007}, {"op": "Settle"}, {"op": "Case", "i": 1}, {"op": "Settle"}]]
 
 def run(tier, seed):
